@@ -2,7 +2,8 @@
    "model"), encodes the result canonically. *)
 From Coq Require Import ZArith List String Bool.
 Import ListNotations.
-From TD Require Import Lib.Sexp Spec.C02_TorchShape Model.C02_ShapeOps.
+From TD Require Import Lib.Sexp Spec.C02_TorchShape Spec.C02_TorchElem Model.C02_ShapeOps Model.C02_Elem.
+From TD Require Spec.C08_Dense Model.C08_Lazy.
 Open Scope string_scope.
 
 Definition dec_zs := dec_list dec_Z.
@@ -179,8 +180,93 @@ Definition model_dispatch (op : string) (args : list sexp) : option sexp :=
   | _, _ => None
   end.
 
+(* ---- the element level: (elem op shape args...) -> the row-major source position of every result position, or "none";
+        (calls tree op args...) -> the torch calls made on the tensors of the tree, each with its own table *)
+Definition dec_sop (op : string) (args : list sexp) : option sop :=
+  match op, args with
+  | "permute", [d] => option_map OPermute (dec_zs d)
+  | "transpose", [a; b] => match dec_Z a, dec_Z b with Some a, Some b => Some (OTranspose a b) | _, _ => None end
+  | "squeeze", [d] => option_map OSqueeze (dec_opt dec_Z d)
+  | "unsqueeze", [d] => option_map OUnsqueeze (dec_Z d)
+  | "expand", [s] => option_map OExpand (dec_zs s)
+  | "view", [s] => option_map OView (dec_zs s)
+  | "reshape", [s] => option_map OReshape (dec_zs s)
+  | "flatten", [a; b] => match dec_Z a, dec_Z b with Some a, Some b => Some (OFlatten a b) | _, _ => None end
+  | "unflatten", [d; z] => match dec_Z d, dec_zs z with Some d, Some z => Some (OUnflatten d z) | _, _ => None end
+  | "repeat", [r] => option_map ORepeat (dec_zs r)
+  | "repeat-interleave", [r; d] => match dec_Z r, dec_Z d with Some r, Some d => Some (ORepInt r d) | _, _ => None end
+  | _, _ => None
+  end.
+
+Definition enc_table (s s' : list Z) (o : sop) : sexp :=
+  match e_table o s s' with Some l => SL [SA "table"; enc_zs l] | None => SA "none" end.
+
+Definition elem_dispatch (op : string) (args : list sexp) : option sexp :=
+  match args with
+  | s :: rest =>
+      match dec_zs s, dec_sop op rest with
+      | Some s, Some o =>
+          Some (match leaf_op o s with Done s' => enc_table s s' o | _ => SA "none" end)
+      | _, _ => None
+      end
+  | _ => None
+  end.
+
+Definition calls_dispatch (op : string) (args : list sexp) : option sexp :=
+  match args with
+  | t :: rest =>
+      match dec_tree t, dec_sop op rest with
+      | Some t, Some o =>
+          Some (SL (map (fun c => match leaf_op (fst c) (snd c) with
+                                  | Done s' => SL [enc_zs (snd c); enc_zs s'; enc_table (snd c) s' (fst c)]
+                                  | _ => SL [enc_zs (snd c); SA "none"; SA "none"]
+                                  end) (leaf_calls t o)))
+      | _, _ => None
+      end
+  | _ => None
+  end.
+
+(* ---- lazy stacks: (lazy op stack_dim member_bs n_members args...) -> (ok new_stack_dim batch_size) | raise | self | other
+        through C08's transcription of LazyStackedTensorDict (Model/C08_Lazy, read-only), on a flat stack of n members *)
+Definition lazy_members (n : nat) (bs : list Z) : list C08_Dense.arr := map (fun j => C08_Dense.Leaf j bs) (seq 0 n).
+
+Definition enc_lazy (self : C08_Dense.arr) (r : C08_Lazy.res C08_Dense.arr) : sexp :=
+  match r with
+  | C08_Lazy.Ok (C08_Dense.Stack nsd bs0 ms as a) =>
+      match C08_Dense.shape_of a with
+      | Some sh => SL [SA "ok"; SZ (Z.of_nat nsd); enc_zs sh]
+      | None => SA "other"
+      end
+  | C08_Lazy.Ok _ => SA "other"
+  | C08_Lazy.Raised => SA "raise"
+  | _ => SA "other"
+  end.
+
+Definition lazy_dispatch (op : string) (args : list sexp) : option sexp :=
+  match args with
+  | sd :: bs :: n :: rest =>
+      match dec_Z sd, dec_zs bs, dec_Z n with
+      | Some sd, Some bs, Some n =>
+          let self := C08_Dense.Stack (Z.to_nat sd) bs (lazy_members (Z.to_nat n) bs) in
+          match op, rest with
+          | "permute", [d] => option_map (fun d => enc_lazy self (C08_Lazy.lz_permute 3 self d)) (dec_zs d)
+          | "transpose", [a; b] =>
+              match dec_Z a, dec_Z b with
+              | Some a, Some b => Some (enc_lazy self (C08_Lazy.lz_transpose 3 self a b)) | _, _ => None end
+          | "squeeze", [d] => option_map (fun d => enc_lazy self (C08_Lazy.lz_squeeze 3 self d)) (dec_Z d)
+          | "unsqueeze", [d] => option_map (fun d => enc_lazy self (C08_Lazy.lz_unsqueeze 3 self d)) (dec_Z d)
+          | _, _ => None
+          end
+      | _, _, _ => None
+      end
+  | _ => None
+  end.
+
 Definition dispatch (cmd : string) (args : list sexp) : option sexp :=
   match cmd, args with
+  | "lazy", SA op :: rest => lazy_dispatch op rest
+  | "elem", SA op :: rest => elem_dispatch op rest
+  | "calls", SA op :: rest => calls_dispatch op rest
   | "spec", SA op :: rest => spec_dispatch op rest
   | "model", SA op :: rest => model_dispatch op rest
   | _, _ => None
